@@ -137,12 +137,8 @@ Fixpoint c02_first (p : Z -> bool) (b : cfg) (idx : Z) (l : list c02_obs) : opti
               if p code then Some (idx, code) else c02_first p b (idx + 1) t
   end.
 
-Definition c02_finding_code (code : Z) : bool := (code =? 11) || (code =? 21).
-
-(* the first failure that is not one of the two recorded finding classes, if there is one (a finding step does not
-   hide what follows it); otherwise the first failure *)
+(* the first failing step.  Codes 11 (Recovery requested from a soft state of a volatile object) and 21 (released by a raw-state
+   comparison although the API state is the remembered one) are the shapes of the two defects fixed by /repo b9a7cb5 and 5e50b7a;
+   they are ordinary failures now and only kept apart from 10 / 22 to name a regression precisely. *)
 Definition oracle_c02 (b : cfg) (l : list c02_obs) : option (Z * Z) :=
-  match c02_first (fun code => negb (code =? 0) && negb (c02_finding_code code)) b 0 l with
-  | Some x => Some x
-  | None => c02_first (fun code => negb (code =? 0)) b 0 l
-  end.
+  c02_first (fun code => negb (code =? 0)) b 0 l.
